@@ -257,6 +257,32 @@ def gen_preempt(r, tier="quick", offgrid=True):
     return scn
 
 
+def gen_bigrun(r, tier="quick"):
+    """Count reach for the statistics: tens of thousands to 130 000 one-tick pipelines, nearly all of one priority class,
+    arriving slightly slower than 64 whole-pool containers per tick can serve them.  Described compactly; expanded when run."""
+    tps = r.choice([1, 2, 10])
+    pools = 64
+    per_tick = r.choice([30, 48, 60])
+    n = r.choice([70000, 104000, 131000, 131000] if tier == "quick" else [40000, 104000, 131000, 131000, 262500])
+    nticks = n // per_tick + r.randint(3, 30)
+    cfg = {"algo": r.choice(["naive", "naive", "overbook"]), "tps": tps, "duration": float(F(nticks, tps)), "pools": pools,
+           "cpus": r.choice([1, 4]), "ram": 64, "multi": r.random() < 0.5, "over": False}
+    cfg["over"] = cfg["algo"] == "overbook"
+    return {"kind": "sys", "cfg": cfg, "big": {"n": n, "per_tick": per_tick, "main": r.choice(PRIOS), "other_every": r.choice([97, 1000])}}
+
+
+def expand_big(scn):
+    b = scn["big"]
+    unit = F(20, scn["cfg"]["tps"])
+    seg = [["0", "const", None, fstr(unit)]]        # one I/O tick, one unit of memory
+    others = [p for p in PRIOS if p != b["main"]]
+    pipes = []
+    for k in range(b["n"]):
+        prio = b["main"] if k % b["other_every"] else others[(k // b["other_every"]) % 2]
+        pipes.append({"prio": prio, "at": k // b["per_tick"], "id": "p%d" % (k + 1), "ops": [{"par": [], "segs": seg}]})
+    return dict(scn, pipes=pipes)
+
+
 def gen_chaos(r, tier="quick"):
     """full-loop scenario for the chaos custom scheduler"""
     scn = gen(r, "naive", "chaos", tier, offgrid=True)
